@@ -47,6 +47,8 @@ MUTATIONS = [
     ("add_path", ("a", "L1", "L2"), "O2", None),
     ("add_links", (("c", "L2", "a"), ("a", "L1", "b")), "gen"),
     ("add_nodes", ("b", "c"), "gen"),
+    # a bulk call with four entries (the two link objects of the universe each sit on two edges afterwards)
+    ("add_links", (("a", "L1", "b"), ("b", "L2", "c"), ("c", "L1", "a"), ("a", "L2", "a"))),
 ]
 READS = list(LOOKUPS)
 NONE, ALL = "-", "*"
